@@ -288,6 +288,25 @@ func (b *BN) AttesterDuties(_ context.Context, opts *eth2api.AttesterDutiesOpts)
 	return &eth2api.Response[[]*eth2v1.AttesterDuty]{Data: out, Metadata: map[string]any{"epoch": uint64(opts.Epoch)}}, nil
 }
 
+// AttestationData answers with data that is a pure function of (slot, committee index).
+func (b *BN) AttestationData(_ context.Context, opts *eth2api.AttestationDataOpts) (*eth2api.Response[*eth2p0.AttestationData], error) {
+	if err := b.enter("attestation_data"); err != nil {
+		return nil, err
+	}
+	var root, src, tgt eth2p0.Root
+	root[0], root[1], root[2] = byte(opts.Slot), byte(opts.Slot>>8), 0xad
+	src[0], tgt[0] = 0x51, 0x7a
+	epoch := eth2p0.Epoch(uint64(opts.Slot) / b.SPE)
+	var srcEpoch eth2p0.Epoch
+	if epoch > 0 {
+		srcEpoch = epoch - 1
+	}
+	return &eth2api.Response[*eth2p0.AttestationData]{Data: &eth2p0.AttestationData{
+		Slot: opts.Slot, Index: opts.CommitteeIndex, BeaconBlockRoot: root,
+		Source: &eth2p0.Checkpoint{Epoch: srcEpoch, Root: src}, Target: &eth2p0.Checkpoint{Epoch: epoch, Root: tgt},
+	}}, nil
+}
+
 func (b *BN) ProposerDuties(_ context.Context, opts *eth2api.ProposerDutiesOpts) (*eth2api.Response[[]*eth2v1.ProposerDuty], error) {
 	if err := b.enter("proposer"); err != nil {
 		b.record("proposer", opts.Epoch, false)
